@@ -116,3 +116,15 @@ Example sequence_overwritten_result_is_rejected :
   seq_check {| sq_now := [call1 [3; 7; 8; 2]; call2 [16; 0; 2; 3]]; sq_after := [call1 [3; 7; 8; 2]; call2 [16; 0; 2; 3]] |} = true /\
   seq_check {| sq_now := [call1 [3; 7; 8; 2]; call2 [16; 0; 2; 3]]; sq_after := [call1 [16; 0; 2; 3]; call2 [16; 0; 2; 3]] |} = false.
 Proof. vm_compute. split; reflexivity. Qed.
+
+(* Large groups.  A group sum is a sum in N: it cannot wrap.  32 all-ones bytes with nb_words = 32 weigh 256 (a result
+   kept modulo 256 is rejected); 1024 all-ones 64-bit words with nb_words = 1024 weigh 65536.  The input is run-length
+   encoded and expanded by [expand] inside Coq; the specification is the same [hw_array popcount]. *)
+Example large_group_sums_do_not_wrap :
+  let c sz k runs obs := {| hr_itemsize := sz; hr_k := k; hr_shape := [1; k]%nat; hr_axis := 1%nat; hr_runs := runs;
+                            hr_obs_shape := [1; 1]%nat; hr_obs := [obs] |} in
+  hw_rle_check (c 1 32%nat [(255, 32%nat)] 256) = true /\ hw_rle_check (c 1 32%nat [(255, 32%nat)] 0) = false /\
+  hw_rle_check (c 1 32%nat [(255, 31%nat); (127, 1%nat)] 255) = true /\
+  hw_rle_check (c 8 1024%nat [(18446744073709551615, 1024%nat)] 65536) = true /\
+  hw_rle_check (c 8 1024%nat [(18446744073709551615, 1024%nat)] 0) = false.
+Proof. vm_compute. repeat split; reflexivity. Qed.
